@@ -6,7 +6,7 @@ from lsp_common import to_model_lines, canon_msgs
 PROP_MODULES = ["Vlsp.Props.C13", "Vlsp.Props.C13Full"]
 RULE = ("the real Backend in an in-process LspService (tokio current-thread runtime, paused clock), real Cache, real parsers/matchers, "
         "gate-controlled registries (each fetch parks until the scenario releases it): scenarios = 1-2 documents x 1-3 edits x 1-2 packages "
-        "x reply outcomes (ok / not found / transient) with the replies interleaved with the later edits in random orders (every order of "
+        "x reply outcomes (ok / not found / transient) with the replies interleaved with the later edits and didClose in random orders (every order of "
         "small scenarios in the thorough tier); the ordered publishDiagnostics stream after every step vs the Lean server model; and the "
         "property itself on the implementation: at quiescence the last published diagnostics of each document must equal what re-checking "
         "its latest text against the final cache publishes. non-trivial = a task completes after a later edit, or a claim is refused; "
@@ -33,6 +33,12 @@ def scenario(rng):
     nsteps = 3 + rng.below(6)
     for _ in range(nsteps):
         k = rng.below(10)
+        if k == 9 and opened and rng.chance(1, 2):
+            # didClose: the document leaves the server's map; tasks it started keep running and must still serve the others
+            uri = rng.choice(sorted(opened))
+            L.append(vlib.line("l.close", uri))
+            opened.discard(uri); texts.pop(uri, None)
+            continue
         if k < 5 or not pending_names:
             uri = rng.choice(list(docs))
             deps = [(rng.choice(["lodash", "react"]), rng.choice(["4.17.20", "^4.17.21", "17.0.0", "^18.0.0", "9.9.9", "latest", "junk"]))
@@ -69,6 +75,9 @@ def fixed(steps):
             L.append(vlib.line("l.parse", "npm", text))
             L.append(vlib.line("l.open" if st[1] not in opened else "l.change", st[1], text))
             opened.add(st[1]); texts[st[1]] = text
+        elif st[0] == "close":
+            L.append(vlib.line("l.close", st[1]))
+            opened.discard(st[1]); texts.pop(st[1], None)
         else:
             L.append(vlib.line("l.reply", "npm", st[1], st[2], *(V[st[1]] if st[2] == "ok" else [])))
     L.append(vlib.line("l.settle"))
@@ -87,6 +96,9 @@ WITNESSES = [
     [("edit", A, [("lodash", "4.17.20")]), ("reply", "lodash", "ok")],                                               # plain open converges
     [("edit", A, [("lodash", "4.17.20"), ("react", "^18.0.0")]), ("reply", "react", "nf"), ("reply", "lodash", "ok")],
     [("edit", A, [("lodash", "4.17.20")]), ("reply", "lodash", "rl")],
+    # the document whose task fetches is closed before the reply: the other document must still converge
+    [("edit", A, [("lodash", "4.17.20")]), ("edit", B, [("lodash", "4.17.21")]), ("close", A), ("reply", "lodash", "ok")],
+    [("edit", A, [("lodash", "4.17.20")]), ("close", A), ("edit", A, [("lodash", "4.17.21")]), ("reply", "lodash", "ok")],
 ]
 
 
